@@ -24,6 +24,9 @@ for ev in sorted(glob.glob("/tmp/seed_out/eval_*.json")):
     shutil.copy("%s/patch%s.diff" % (src, n), os.path.join(dst, "patch.diff"))
     for f in glob.glob("%s/demo%s*" % (src, n)):
         shutil.copy(f, os.path.join(dst, os.path.basename(f)))
+    reb = "/tmp/seed_out/rebased/%s_%s.diff" % (pid, n)
+    if os.path.exists(reb):
+        shutil.copy(reb, os.path.join(dst, "patch.rebased.diff"))
     out = r.get("check_output", "")
     first_what = ""
     m = re.search(r"what: (.*)", out)
